@@ -14,6 +14,8 @@ Defects (net["defects"] lists what was injected, net["blunders"] the expected ab
   blunder       observation value shifted so that the positional misclosure is f*tol_abs
   zangle_mid    zenith-angle blunder between the horizontal-distance and the slope-distance threshold
   blunder_w     the same on an angular observation whose stdev is 5x / 0.1x sigma-apr
+  corr          (not a defect) clusters get a <cov-mat> with band >= 1, so that an excluded observation takes its
+                row and column of a correlated block with it
 """
 import copy
 import math
@@ -83,6 +85,9 @@ def inject_blunder(rng, net, tol, factor=None, only=None):
 
 
 def make_case(rng, acord=True, dim=None, want=None):
+    corr = bool(want) and "corr" in want
+    if corr:
+        want = [w for w in want if w != "corr"]
     if want and "zangle_mid" in want:
         dim = 3
     dim = dim or rng.choice([2, 2, 2, 3])
@@ -203,7 +208,62 @@ def make_case(rng, acord=True, dim=None, want=None):
         elif d == "blunder2":
             inject_blunder(rng, net, tol, factor=rng.choice([3.0, 30.0]))
             inject_blunder(rng, net, tol, factor=rng.choice([0.3, 0.9, 0.99]))
+    if corr or (want is None and rng.random() < 0.3):
+        add_correlations(rng, net, every=corr)
     return net
+
+
+def cluster_rows(o):
+    """number of rows of the cluster's covariance matrix and their standard deviations (None: cannot be correlated here)"""
+    if o["kind"] == "obs":
+        return [float(it.get("stdev", 10)) for it in o["items"]]
+    if o["kind"] == "hdiffs":
+        if any("stdev" not in it for it in o["items"]):
+            return None
+        return [float(it["stdev"]) for it in o["items"]]
+    if o["kind"] == "vectors":
+        return [1.0] * (3 * len(o["items"]))
+    return None
+
+
+def add_correlations(rng, net, every=False):
+    """give clusters a banded, symmetric positive definite <cov-mat> (diagonal stdev^2, correlation 0.2*0.5^(k-1) with
+    alternating sign on the k-th off-diagonal: strictly diagonally dominant after scaling).  Clusters with an angular
+    blunder are left alone: the code tests the homogenised term there (C14-F1), which mixes the entries of a
+    correlated block; the verdict for the other types does not depend on the size of the term."""
+    n_corr = 0
+    for o in net["obs"]:
+        sd = cluster_rows(o)
+        if sd is None or len(sd) < 2 or o.get("cov"):
+            continue
+        if o["kind"] == "obs" and any(it.get("blunder") is not None and it["t"] in ANGULAR for it in o["items"]):
+            continue
+        if not every and rng.random() < 0.4:
+            continue
+        n = len(sd)
+        band = min(n - 1, rng.choice([1, 1, 2, 3, n - 1]))
+        cov = [[0.0] * n for _ in range(n)]
+        for i in range(n):
+            cov[i][i] = sd[i] * sd[i]
+            for k in range(1, band + 1):
+                if i + k < n:
+                    r = 0.2 * 0.5 ** (k - 1) * (-1 if k % 2 == 0 else 1)
+                    cov[i][i + k] = cov[i + k][i] = r * sd[i] * sd[i + k]
+        o["cov"], o["band"] = cov, band
+        n_corr += 1
+    if n_corr:
+        net.setdefault("defects", []).append(("corr", n_corr))
+    return n_corr
+
+
+def sub_cov(o, rows):
+    """principal sub-matrix of the cluster's covariance matrix on the kept rows; band = min(band, n-1)"""
+    if not o.get("cov"):
+        return
+    cov = o["cov"]
+    o["cov"] = [[cov[i][j] for j in rows] for i in rows]
+    if o.get("band") is not None:
+        o["band"] = max(0, min(o["band"], len(rows) - 1))
 
 
 def boundary_case(kind="distance", op="eq", tol=500):
@@ -394,7 +454,8 @@ def matrix_cases():
 
 
 def delete_items(net, keep_obs, point_groups):
-    """the input with the excluded items deleted.
+    """the input with the excluded items deleted (observations go together with their rows and columns of the
+    cluster's covariance matrix: principal sub-matrix, `sub_cov`).
     keep_obs: list (per cluster, in OD order) of lists of booleans (per observation);
     point_groups: {id: (xy_active, z_active)} as left by the revision"""
     n = copy.deepcopy(net)
@@ -430,6 +491,7 @@ def delete_items(net, keep_obs, point_groups):
             ci += 1
             assert len(flags) == len(o["items"]), (len(flags), len(o["items"]))
             o["items"] = [it for it, k in zip(o["items"], flags) if k]
+            sub_cov(o, [i for i, k in enumerate(flags) if k])
             if o["items"]:
                 obs.append(o)
         elif o["kind"] == "hdiffs":
@@ -437,6 +499,7 @@ def delete_items(net, keep_obs, point_groups):
             ci += 1
             assert len(flags) == len(o["items"])
             o["items"] = [it for it, k in zip(o["items"], flags) if k]
+            sub_cov(o, [i for i, k in enumerate(flags) if k])
             if o["items"]:
                 obs.append(o)
         elif o["kind"] == "vectors":
@@ -447,6 +510,7 @@ def delete_items(net, keep_obs, point_groups):
             if any(any(flags[3 * i:3 * i + 3]) != keepv[i] for i in range(len(keepv))):
                 raise ValueError("partially excluded vector")
             o["items"] = [it for it, k in zip(o["items"], keepv) if k]
+            sub_cov(o, [i for i, k in enumerate(flags) if k])
             if o["items"]:
                 obs.append(o)
         elif o["kind"] == "coords":
@@ -461,6 +525,7 @@ def delete_items(net, keep_obs, point_groups):
                     raise ValueError("partially excluded coordinate observation")
                 k += n_
             o["items"] = items
+            sub_cov(o, [i for i, f in enumerate(flags) if f])
             if items:
                 obs.append(o)
         else:
